@@ -38,6 +38,7 @@ func main() {
 	var ranges []mapRange
 	var accesses []access
 	var calls []callSite
+	var pools []poolFact
 	for _, p := range pkgs {
 		dir := filepath.Join(*repo, p)
 		parsed, err := parser.ParseDir(fset, dir, func(fi os.FileInfo) bool { return !strings.HasSuffix(fi.Name(), "_test.go") }, parser.ParseComments)
@@ -64,6 +65,7 @@ func main() {
 			if _, err := conf.Check("sigs.k8s.io/structured-merge-diff/v6/"+p, fset, files, info); err != nil {
 				fmt.Fprintln(os.Stderr, "factgen: type check:", err)
 			}
+			pools = append(pools, poolFacts(p, fset, files, info)...)
 			underLock := lockInheritance(files, info)
 			for _, f := range files {
 				fname := p + "/" + filepath.Base(fset.Position(f.Pos()).Filename)
@@ -114,7 +116,137 @@ func main() {
 		return a.file+a.fn+a.callee+a.guard < b.file+b.fn+b.callee+b.guard
 	})
 	writeSync(filepath.Join(*out, "SyncFacts.lean"), accesses, calls)
+	sort.Slice(pools, func(i, j int) bool {
+		a, b := pools[i], pools[j]
+		return a.file+a.walker+a.field < b.file+b.walker+b.field
+	})
+	writePools(filepath.Join(*out, "PoolFacts.lean"), pools)
 	fmt.Printf("factgen: %d map ranges, %d shared-field accesses\n", len(ranges), len(accesses))
+}
+
+// poolFact: a field of a pooled object that is assigned neither where the object is taken from its
+// sync.Pool nor where it is put back (it keeps its value from the previous use).
+type poolFact struct{ file, walker, field string }
+
+// poolFacts: for every package-level sync.Pool whose New returns &T{}, the fields of T that no function
+// containing a Get or Put of that pool assigns (through any expression of type *T, closures included).
+func poolFacts(pkg string, fset *token.FileSet, files []*ast.File, info *types.Info) []poolFact {
+	type pool struct {
+		obj   types.Object
+		named *types.Named
+		file  string
+	}
+	var pools []pool
+	for _, f := range files {
+		for _, d := range f.Decls {
+			gd, ok := d.(*ast.GenDecl)
+			if !ok || gd.Tok != token.VAR {
+				continue
+			}
+			for _, sp := range gd.Specs {
+				vs, ok := sp.(*ast.ValueSpec)
+				if !ok || len(vs.Names) != 1 || len(vs.Values) != 1 {
+					continue
+				}
+				cl, ok := vs.Values[0].(*ast.CompositeLit)
+				if !ok {
+					continue
+				}
+				if tv, ok := info.Types[cl]; !ok || tv.Type.String() != "sync.Pool" {
+					continue
+				}
+				// New: func() interface{} { return &T{} }
+				var named *types.Named
+				ast.Inspect(cl, func(n ast.Node) bool {
+					if ue, ok := n.(*ast.UnaryExpr); ok && ue.Op == token.AND {
+						if tv, ok := info.Types[ue.X]; ok {
+							if nm, ok := tv.Type.(*types.Named); ok {
+								named = nm
+							}
+						}
+					}
+					return true
+				})
+				if named != nil {
+					pools = append(pools, pool{info.Defs[vs.Names[0]], named, pkg + "/" + filepath.Base(fset.Position(f.Pos()).Filename)})
+				}
+			}
+		}
+	}
+	var out []poolFact
+	for _, pl := range pools {
+		st, ok := pl.named.Underlying().(*types.Struct)
+		if !ok {
+			continue
+		}
+		assigned := map[string]bool{}
+		for _, f := range files {
+			for _, d := range f.Decls {
+				fd, ok := d.(*ast.FuncDecl)
+				if !ok || fd.Body == nil {
+					continue
+				}
+				uses := false
+				ast.Inspect(fd.Body, func(n ast.Node) bool {
+					if ce, ok := n.(*ast.CallExpr); ok {
+						if se, ok := ce.Fun.(*ast.SelectorExpr); ok && (se.Sel.Name == "Get" || se.Sel.Name == "Put") {
+							if id, ok := se.X.(*ast.Ident); ok && info.Uses[id] == pl.obj {
+								uses = true
+							}
+						}
+					}
+					return true
+				})
+				if !uses {
+					continue
+				}
+				ast.Inspect(fd.Body, func(n ast.Node) bool {
+					as, ok := n.(*ast.AssignStmt)
+					if !ok {
+						return true
+					}
+					for _, lhs := range as.Lhs {
+						se, ok := lhs.(*ast.SelectorExpr)
+						if !ok {
+							continue
+						}
+						if tv, ok := info.Types[se.X]; ok {
+							t := tv.Type
+							if p, ok := t.(*types.Pointer); ok {
+								t = p.Elem()
+							}
+							if nm, ok := t.(*types.Named); ok && nm.Obj() == pl.named.Obj() {
+								assigned[se.Sel.Name] = true
+							}
+						}
+					}
+					return true
+				})
+			}
+		}
+		for i := 0; i < st.NumFields(); i++ {
+			if !assigned[st.Field(i).Name()] {
+				out = append(out, poolFact{pl.file, pl.named.Obj().Name(), st.Field(i).Name()})
+			}
+		}
+	}
+	return out
+}
+
+func writePools(path string, ps []poolFact) {
+	var b strings.Builder
+	b.WriteString("/- GENERATED by harness/cmd/factgen from /repo on every run. Do not edit. -/\nnamespace SMD.Generated\n\n")
+	b.WriteString("/-- fields of pooled walkers that are assigned neither where the walker is taken from its sync.Pool nor\nwhere it is put back: (file of the pool, walker type, field) -/\n")
+	b.WriteString("def poolKept : List (String × String × String) := [\n")
+	for i, p := range ps {
+		sep := ","
+		if i == len(ps)-1 {
+			sep = ""
+		}
+		fmt.Fprintf(&b, "  (%s, %s, %s)%s\n", leanStr(p.file), leanStr(p.walker), leanStr(p.field), sep)
+	}
+	b.WriteString("]\n\nend SMD.Generated\n")
+	writeIfChanged(path, b.String())
 }
 
 // firstLock: the position of the first <x>.Lock() call in fd (NoPos if none).
